@@ -17,6 +17,7 @@ def run(ctx):
     D.lit3_wal_file_names(ctx)
     U.flw17_segment_id_units(ctx)
     D.flw18_segment_id_consistency(ctx)
+    D.ord15_store_not_conditional_on_presence(ctx)
     return ctx.finish(
         'Static analysis of compiler MIR: structural clauses of the write-ahead protocol that are '
         'necessary for "acknowledged data survives restart" are decided on every CFG path '
